@@ -3,8 +3,10 @@ package main
 import (
 	"errors"
 	"net"
+	"os"
 	"sync"
 	"sync/atomic"
+	"syscall"
 	"time"
 
 	dht "github.com/anacrolix/dht/v2"
@@ -174,3 +176,24 @@ func baseConfig(conn *fakeConn) *dht.ServerConfig {
 
 // Every injected datagram has been taken off the queue by the serve loop.
 func (c *fakeConn) drained() bool { return len(c.in) == 0 }
+
+// The errors a UDP socket write fails with in practice, by turns: a caller must not treat any of
+// them as anything but "this datagram was not sent".
+func injectedWriteErr(n int) error {
+	sys := func(e syscall.Errno) error {
+		return &net.OpError{Op: "write", Net: "udp", Err: os.NewSyscallError("sendto", e)}
+	}
+	switch n % 6 {
+	case 0:
+		return sys(syscall.ENOBUFS)
+	case 1:
+		return sys(syscall.ENETUNREACH)
+	case 2:
+		return sys(syscall.EPERM)
+	case 3:
+		return sys(syscall.EAGAIN)
+	case 4:
+		return syscall.ENOBUFS
+	}
+	return errors.New("injected write failure")
+}
